@@ -178,6 +178,48 @@ theorem step_pinv (s s' : St) (a : Act) (h : step s a = some s') (hi : PInv s) :
       · subst hd; simp at hf ⊢; omega
       · have : ¬ c = d := fun e => hd e.symm
         simp [hd, this] at hf ⊢; omega
+  | drop c =>
+    simp only [step] at h
+    split at h
+    · cases h
+    · rename_i hcond
+      cases h
+      simp at hcond
+      refine ⟨?_, hi.ids, hi.recs, hi.nonempty, hi.rd, (fun hf => by rw [show s.running = false from hf] at hcond; simp at hcond)⟩
+      intro d
+      have := hi.chunks d
+      rw [count_places] at this ⊢
+      have hone : s.queue.count c + s.inflight.count c = 1 ∧ s.acked.count c = 0 ∧ s.dropped.count c = 0 ∧ s.disk.count c = 0 := by
+        have h1 := hi.chunks c
+        rw [count_places] at h1
+        have h2 : 1 ≤ s.queue.count c + s.inflight.count c := by
+          by_cases hq : c ∈ s.queue
+          · have := List.count_pos_iff.mpr hq; omega
+          · have := List.count_pos_iff.mpr (hcond.2 hq); omega
+        split at h1 <;> omega
+      have hf : ∀ l : List Nat, (l.filter (· ≠ c)).count d = if d = c then 0 else l.count d := by
+        intro l
+        by_cases hd : d = c
+        · subst hd
+          have : (l.filter (fun x => !decide (x = d))).count d = 0 := by
+            apply List.count_eq_zero.mpr
+            intro hm; simp at hm
+          simp [this]
+        · have : (l.filter (fun x => !decide (x = c))).count d = l.count d := by
+            rw [List.count_filter]; simp [hd]
+          simp [hd, this]
+      obtain ⟨h1, h2, h3, h4⟩ := hone
+      simp only [hf, List.count_append, List.count_cons, List.count_nil]
+      by_cases hd : d = c
+      · subst hd
+        have hlt : d < s.nextChunk := by
+          by_cases hl : d < s.nextChunk
+          · exact hl
+          · simp [hl] at this; omega
+        simp [hlt, h2, h3, h4]
+      · have hcd : ¬ c = d := fun e => hd e.symm
+        simp only [hd, if_false, beq_iff_eq, hcd] at this ⊢
+        omega
   | connFail =>
     simp only [step] at h
     split at h
@@ -484,6 +526,22 @@ theorem step_oinv (s s' : St) (a : Act) (h : step s a = some s') (hp : PInv s) (
     · cases h
       refine ⟨?_, ho.dsorted, ho.bound, ho.ahead, ho.perConn, ho.first, ho.fresh, ?_⟩
       · exact List.Pairwise.sublist (List.Sublist.append (List.filter_sublist) (List.Sublist.refl _)) ho.sorted
+      · intro d hd
+        exact ho.flown d (List.mem_filter.mp hd).1
+  | drop c =>
+    simp only [step] at h
+    split at h
+    · cases h
+    · cases h
+      refine ⟨?_, ho.dsorted, ho.bound, ?_, ho.perConn, ho.first, ?_, ?_⟩
+      · exact List.Pairwise.sublist (List.Sublist.append (List.filter_sublist) (List.filter_sublist)) ho.sorted
+      · intro c' hc' q hq
+        exact ho.ahead c' hc' q (List.mem_filter.mp hq).1
+      · intro q hq hns p hp'
+        refine ho.fresh q ?_ hns p hp'
+        rcases List.mem_append.mp hq with h1 | h1
+        · exact List.mem_append_left _ (List.mem_filter.mp h1).1
+        · exact List.mem_append_right _ h1
       · intro d hd
         exact ho.flown d (List.mem_filter.mp hd).1
   | connFail =>
